@@ -108,6 +108,26 @@ DONE = {
   'PARTIAL: independence is true by construction in the functional model; that the implementation gives every object its own connection is '
   'observed by the history correspondence, not proved. Selections are evaluated by an independent Python predicate (their semantics is C03). '
   'Empty selections hit known finding F17. Print Assumptions: closed under the global context.'),
+ 'C20': ('§5.C20',
+  'Abstract file system with durable image + pending transaction (Python sqlite3 legacy transaction mode: implicit BEGIN before DML, DDL autocommit when no '
+  'transaction is open), scripts for create[,modify][,commit][,modify],close(keep|remove). Coq proves for every initial directory, scenario, file name and crash '
+  'point: the recovered file holds the complete last-committed table or no atoms (never part of one), close(keep) leaves exactly the table, close(remove) removes '
+  'exactly that file, names are data (touched paths within {name, name-journal}); the static table of every file-system call site is regenerated from the AST and '
+  'proved equal to the one the scripts use (no shell command, removals name only sqlfile). Harness: child processes killed before every statement/commit/close, '
+  'stock sqlite3 re-opens the file (integrity_check); odd file names, victim files.',
+  'Gallina transition model + Coq theorems (all scenarios x crash points x names) + regenerated call-site table + fault injection in child processes',
+  'PARTIAL: SQLite atomic commit / hot-journal rollback are oracles; kills are placed at Python-call granularity. F14 fixed in /repo. '
+  'Print Assumptions: closed under the global context.'),
+ 'C16': ('§5.C16',
+  'One script of file-system/connection actions per public routine over the abstract file system; schedules are lists of task indices. Coq proves: every script '
+  'stays in its requested footprint, inputs unchanged, cwd irrelevant, non-interference for arbitrary programs and any number of tasks with disjoint write sets '
+  '(induction over schedules), shared zone cache with atomic publication gives every task the same zone for all schedules (rely/guarantee), termination, and the '
+  'refutation for an in-place writer (a schedule with a partial zone exists). The regenerated call-site table is proved to contain no scratch database and an '
+  'atomic zone writer. Harness: every routine under wrappers of open/os/sqlite3/tempfile with directory snapshots and pre-seeded victim files; two real '
+  'computations in two threads parked at every intercepted action and released along model-enumerated schedules (predicted-bad ones first).',
+  'Gallina scripts + Coq theorems over all schedules + regenerated call-site table + controlled thread schedules and directory snapshots',
+  'PARTIAL: os.replace atomicity, mkstemp freshness and OS scheduling inside SQLite/NumPy are oracles (bounded exercise). F8, F9 fixed in /repo. '
+  'Print Assumptions: closed under the global context.'),
  'C19': ('§5.C19',
   'The query built by get_intersection (INNER JOIN of all tables, equality on every match key for every pair of tables, one slice of the '
   'joined row per table) is modelled as a nested-loop join; Coq proves, for any number of structures and any match keys, the exact '
